@@ -33,9 +33,15 @@ Theorem mutate_frozen : forall pf w t mu,
   target_inmodel w t = true -> mutate pf w t mu = (w, Err Frozen).
 Proof. intros pf w t mu H. unfold mutate. now rewrite H. Qed.
 
+(* handing a node of a live model to the value_node / dist_node setter of any variable is rejected *)
+Theorem mutate_frozen_arg : forall pf w t mu,
+  arg_inmodel w mu = true -> mutate pf w t mu = (w, Err Frozen).
+Proof. intros pf w t mu H. unfold mutate. rewrite H. now rewrite orb_true_r. Qed.
+
 Theorem mutate_free : forall pf w t mu,
-  target_inmodel w t = false -> mutate pf w t mu = (do_mutation pf w t mu, Ok tt).
-Proof. intros pf w t mu H. unfold mutate. now rewrite H. Qed.
+  target_inmodel w t = false -> arg_inmodel w mu = false ->
+  mutate pf w t mu = (do_mutation pf w t mu, Ok tt).
+Proof. intros pf w t mu H H'. unfold mutate. now rewrite H, H'. Qed.
 
 (* ------------------------------------------------------------------------------------------ *)
 (* topological order                                                                          *)
@@ -449,52 +455,53 @@ Proof.
   - now apply IH.
 Qed.
 
-Theorem model_init_ok : forall cf topo w ns vs w' m,
-  model_init cf topo w ns vs = (w', Ok m) ->
-  m = mkM ns vs /\ w' = wire w ns /\
+Theorem model_init_ok : forall cf topo copy w ns vs w' m,
+  model_init cf topo copy w ns vs = (w', Ok m) ->
+  m = mkM ns vs /\ w' = (if copy then w else wire w ns) /\
   NoDup (map (name_of w) ns) /\ NoDup (map (vname_of w) vs) /\
   NoDup (map (gname_of w) (groups_of w ns vs)) /\
-  (forall i, In i ns -> inmodel_of w i = false) /\
+  (copy = false -> forall i, In i ns -> inmodel_of w i = false) /\
   exists order, topo w ns = Some order /\ is_topo w ns order = true.
 Proof.
-  intros cf topo w ns vs w' m H. unfold model_init in H.
+  intros cf topo copy w ns vs w' m H. unfold model_init in H.
   destruct (has_dup (map (name_of w) ns)) eqn:D1; [discriminate|].
   destruct (has_dup (map (vname_of w) vs)) eqn:D2; [discriminate|].
   destruct (has_dup (map (gname_of w) (groups_of w ns vs))) eqn:D3; [discriminate|].
-  destruct (existsb (inmodel_of w) ns) eqn:D4; [discriminate|].
+  destruct (negb copy && existsb (inmodel_of w) ns)%bool eqn:D4; [discriminate|].
   destruct (topo w ns) as [order|] eqn:D5; [|discriminate].
   destruct (is_topo w ns order) eqn:D6; [|discriminate].
   inversion H; subst. repeat split; try (now apply has_dup_false).
-  - intros i Hi. destruct (inmodel_of w i) eqn:E; [|reflexivity].
+  - intros Hc i Hi. subst copy. cbn in D4. destruct (inmodel_of w i) eqn:E; [|reflexivity].
     assert (existsb (inmodel_of w) ns = true) by (apply existsb_exists; eauto). congruence.
   - exists order. now split.
 Qed.
 
 (* duplicate names, a node of another model, or no topological order: the build is rejected *)
-Theorem model_init_rejects : forall cf topo w ns vs,
+Theorem model_init_rejects : forall cf topo copy w ns vs,
   (~ NoDup (map (name_of w) ns) \/ ~ NoDup (map (vname_of w) vs)
    \/ ~ NoDup (map (gname_of w) (groups_of w ns vs))
-   \/ (exists i, In i ns /\ inmodel_of w i = true) \/ topo w ns = None) ->
-  exists e, snd (model_init cf topo w ns vs) = Err e.
+   \/ (copy = false /\ exists i, In i ns /\ inmodel_of w i = true) \/ topo w ns = None) ->
+  exists e, snd (model_init cf topo copy w ns vs) = Err e.
 Proof.
-  intros cf topo w ns vs H. unfold model_init.
+  intros cf topo copy w ns vs H. unfold model_init.
   destruct (has_dup (map (name_of w) ns)) eqn:D1; [eexists; reflexivity|].
   destruct (has_dup (map (vname_of w) vs)) eqn:D2; [eexists; reflexivity|].
   destruct (has_dup (map (gname_of w) (groups_of w ns vs))) eqn:D3; [eexists; reflexivity|].
-  destruct (existsb (inmodel_of w) ns) eqn:D4; [eexists; reflexivity|].
+  destruct (negb copy && existsb (inmodel_of w) ns)%bool eqn:D4; [eexists; reflexivity|].
   destruct H as [H|[H|[H|[H|H]]]].
   - exfalso. apply H. now apply has_dup_false.
   - exfalso. apply H. now apply has_dup_false.
   - exfalso. apply H. now apply has_dup_false.
-  - destruct H as [i [Hi Hm]]. assert (existsb (inmodel_of w) ns = true) by (apply existsb_exists; eauto). congruence.
+  - destruct H as [Hc [i [Hi Hm]]]. subst copy. cbn in D4.
+    assert (existsb (inmodel_of w) ns = true) by (apply existsb_exists; eauto). congruence.
   - rewrite H. eexists; reflexivity.
 Qed.
 
 (* repaired code: a rejected Model.__init__ leaves every object as it was *)
-Theorem model_init_rejected_unchanged : forall topo w ns vs w' e,
-  model_init true topo w ns vs = (w', Err e) -> w' = w.
+Theorem model_init_rejected_unchanged : forall topo copy w ns vs w' e,
+  model_init true topo copy w ns vs = (w', Err e) -> w' = w.
 Proof.
-  intros topo w ns vs w' e H. unfold model_init in H.
+  intros topo copy w ns vs w' e H. unfold model_init in H.
   repeat match type of H with
          | (if ?c then _ else _) = _ => destruct c
          | match ?c with _ => _ end = _ => destruct c
@@ -521,10 +528,10 @@ Theorem pop_spec : forall w m j,
   getn (pop w m) j = if memn j (m_nodes m) then option_map (set_inmodel false) (getn w j) else getn w j.
 Proof. intros. unfold pop. apply pop_fold_getn. Qed.
 
-Theorem pop_unfreezes : forall pf w m i mu, In i (m_nodes m) ->
+Theorem pop_unfreezes : forall pf w m i mu, In i (m_nodes m) -> arg_inmodel (pop w m) mu = false ->
   mutate pf (pop w m) (TNode i) mu = (do_mutation pf (pop w m) (TNode i) mu, Ok tt).
 Proof.
-  intros pf w m i mu Hi. apply mutate_free. cbn. unfold inmodel_of. rewrite pop_spec.
+  intros pf w m i mu Hi Ha. apply mutate_free; [|exact Ha]. cbn. unfold inmodel_of. rewrite pop_spec.
   assert (H : memn i (m_nodes m) = true) by now apply memn_In. rewrite H.
   destruct (getn w i); reflexivity.
 Qed.
@@ -694,10 +701,10 @@ Definition ex_seeded : world :=
       [mkV "x" 1 2 None false false []] [].
 
 Definition rebuild (strip : bool) (w : world) (rn : list nid) (rv : list vid) : world * result model * result model :=
-  match build strip true true naive_topo w rn rv with
+  match build strip true true naive_topo false w rn rv with
   | (w1, Ok m) =>
     let w2 := pop w1 m in
-    (w2, Ok m, snd (build strip true true naive_topo w2 (popped_nodes w1 m) (m_vars m)))
+    (w2, Ok m, snd (build strip true true naive_topo false w2 (popped_nodes w1 m) (m_vars m)))
   | (w1, Err e) => (w1, Err e, Err e)
   end.
 
@@ -706,7 +713,7 @@ Definition rebuild (strip : bool) (w : world) (rn : list nid) (rv : list vid) : 
 Theorem pop_rebuild_seeded_example :
   match rebuild true ex_seeded [] [0] with
   | (w2, Ok m1, Ok m2) =>
-    match build true true true naive_topo w2 (popped_nodes w2 m1) (m_vars m1) with
+    match build true true true naive_topo false w2 (popped_nodes w2 m1) (m_vars m1) with
     | (w3, Ok m3) =>
       List.length (m_nodes m3) = List.length (m_nodes m1) /\
       forall s, In s (map (name_of w3) (m_nodes m3)) <-> In s (map (name_of w2) (m_nodes m1))
@@ -730,9 +737,9 @@ Definition ex_chain : world :=
        mkN "c" [1] [] None None false false false [] []] [] [].
 
 Definition second_build (cf : bool) : list nid * list nid * bool :=
-  match build true cf true naive_topo ex_chain [2] [] with
+  match build true cf true naive_topo false ex_chain [2] [] with
   | (w1, Ok _) =>
-    match build true cf true naive_topo w1 [1] [] with
+    match build true cf true naive_topo false w1 [1] [] with
     | (w2, r) => (outs_of w1 1, outs_of w2 1, err_is InModel r)
     end
   | _ => ([], [], false)
@@ -743,9 +750,9 @@ Proof. vm_compute. reflexivity. Qed.
 
 Theorem rejected_build_clears_outputs_refuted :
   exists w rn rv i,
-    match build true false true naive_topo w rn rv with
+    match build true false true naive_topo false w rn rv with
     | (w1, Ok m) =>
-      match build true false true naive_topo w1 [i] [] with
+      match build true false true naive_topo false w1 [i] [] with
       | (w2, Err InModel) => In i (m_nodes m) /\ outs_of w1 i <> outs_of w2 i
       | _ => False
       end
@@ -879,19 +886,19 @@ Qed.
 
 (* ------------------------------------------------------------------------------------------ *)
 (* end to end: what an accepted build_model guarantees                                        *)
-Lemma build_ok_inv : forall s cf pf topo w rn rv w' m,
-  build s cf pf topo w rn rv = (w', Ok m) ->
+Lemma build_ok_inv : forall s cf pf topo copy w rn rv w' m,
+  build s cf pf topo copy w rn rv = (w', Ok m) ->
   exists w6 rn', closure w6 rn' rv = Some (m_nodes m, m_vars m) /\
-                 model_init cf topo w6 (m_nodes m) (m_vars m) = (w', Ok m).
+                 model_init cf topo copy w6 (m_nodes m) (m_vars m) = (w', Ok m).
 Proof.
-  intros s cf pf topo w rn rv w' m H. unfold build, bind_closure in H.
+  intros s cf pf topo copy w rn rv w' m H. unfold build, bind_closure in H.
   repeat match type of H with
          | match ?c with _ => _ end = _ => destruct c eqn:?
          | (if ?c then _ else _) = _ => destruct c eqn:?
          end; try discriminate.
   match goal with
-  | Hc : closure ?w6 ?rn6 rv = Some (?ns, ?vs), Hm : model_init _ _ ?w6 ?ns ?vs = _ |- _ =>
-    pose proof (model_init_ok _ _ _ _ _ _ _ Hm) as [Em _]; subst m; exists w6, rn6; split; [exact Hc|exact Hm]
+  | Hc : closure ?w6 ?rn6 rv = Some (?ns, ?vs), Hm : model_init _ _ _ ?w6 ?ns ?vs = _ |- _ =>
+    pose proof (model_init_ok _ _ _ _ _ _ _ _ Hm) as [Em _]; subst m; exists w6, rn6; split; [exact Hc|exact Hm]
   end.
 Qed.
 
@@ -915,46 +922,63 @@ Proof.
   cbn [fold_left]. now rewrite IH.
 Qed.
 
-Theorem build_ok_spec : forall s cf pf topo w rn rv w' m,
-  build s cf pf topo w rn rv = (w', Ok m) ->
+(* [wv] is the world in which the model's nodes are wired: the result world, or the copies for copy=True *)
+Theorem build_ok_spec : forall s cf pf topo copy w rn rv w' m,
+  build s cf pf topo copy w rn rv = (w', Ok m) ->
+  let wv := copied_world copy w' m in
   NoDup (m_nodes m) /\ NoDup (m_vars m) /\
-  NoDup (map (name_of w') (m_nodes m)) /\
-  NoDup (map (vname_of w') (m_vars m)) /\
-  (forall i a, In i (m_nodes m) -> In a (ins_of w' i) -> In a (m_nodes m)) /\
-  (forall i v, In i (m_nodes m) -> var_of w' i = Some v -> In v (m_vars m)) /\
-  (forall i j, In i (m_nodes m) -> i < List.length (w_nodes w') ->
-               (In j (outs_of w' i) <-> In j (m_nodes m) /\ In i (ins_of w' j))) /\
-  (forall i, In i (m_nodes m) -> i < List.length (w_nodes w') -> inmodel_of w' i = true) /\
-  exists order, is_topo w' (m_nodes m) order = true.
+  NoDup (map (name_of wv) (m_nodes m)) /\
+  NoDup (map (vname_of wv) (m_vars m)) /\
+  (forall i a, In i (m_nodes m) -> In a (ins_of wv i) -> In a (m_nodes m)) /\
+  (forall i v, In i (m_nodes m) -> var_of wv i = Some v -> In v (m_vars m)) /\
+  (forall i j, In i (m_nodes m) -> i < List.length (w_nodes wv) ->
+               (In j (outs_of wv i) <-> In j (m_nodes m) /\ In i (ins_of wv j))) /\
+  (forall i, In i (m_nodes m) -> i < List.length (w_nodes wv) -> inmodel_of wv i = true) /\
+  exists order, is_topo wv (m_nodes m) order = true.
 Proof.
-  intros s cf pf topo w rn rv w' m H.
-  destruct (build_ok_inv _ _ _ _ _ _ _ _ _ H) as [w6 [rn' [Hc Hm]]].
+  intros s cf pf topo copy w rn rv w' m H wv.
+  destruct (build_ok_inv _ _ _ _ _ _ _ _ _ _ H) as [w6 [rn' [Hc Hm]]].
   destruct (closure_complete _ _ _ _ _ Hc) as [Nn [Nv [Rn Rv]]].
-  destruct (model_init_ok _ _ _ _ _ _ _ Hm) as [_ [Ew [Dn [Dv [_ [_ [order [_ Ho]]]]]]]].
-  assert (L : List.length (w_nodes w') = List.length (w_nodes w6)).
-  { subst w'. unfold wire. apply (fold_setn_length (fun i n => set_inmodel true (set_outs (outs_in w6 (m_nodes m) i) n))). }
-  assert (Ei : forall i, ins_of w' i = ins_of w6 i) by (intros; subst w'; apply ins_of_wire).
-  assert (Ev : forall i, var_of w' i = var_of w6 i).
-  { intros i. subst w'. unfold var_of. rewrite getn_wire. destruct (memn i (m_nodes m)); [|reflexivity].
+  destruct (model_init_ok _ _ _ _ _ _ _ _ Hm) as [_ [Ew [Dn [Dv [_ [_ [order [_ Ho]]]]]]]].
+  assert (Ewv : wv = wire w6 (m_nodes m)).
+  { unfold wv, copied_world. destruct copy; now subst w'. }
+  clearbody wv. subst wv.
+  assert (L : List.length (w_nodes (wire w6 (m_nodes m))) = List.length (w_nodes w6)).
+  { unfold wire. apply (fold_setn_length (fun i n => set_inmodel true (set_outs (outs_in w6 (m_nodes m) i) n))). }
+  assert (Ei : forall i, ins_of (wire w6 (m_nodes m)) i = ins_of w6 i) by (intros; apply ins_of_wire).
+  assert (Ev : forall i, var_of (wire w6 (m_nodes m)) i = var_of w6 i).
+  { intros i. unfold var_of. rewrite getn_wire. destruct (memn i (m_nodes m)); [|reflexivity].
     destruct (getn w6 i); reflexivity. }
   split; [assumption|]. split; [assumption|].
-  split. { subst w'. erewrite map_ext; [exact Dn|]. intros; apply name_of_wire. }
+  split. { erewrite map_ext; [exact Dn|]. intros; apply name_of_wire. }
   split.
-  { subst w'. erewrite map_ext; [exact Dv|]. intros v. unfold vname_of, getv, wire.
+  { erewrite map_ext; [exact Dv|]. intros v. unfold vname_of, getv, wire.
     now rewrite (fold_setn_vars (fun i n => set_inmodel true (set_outs (outs_in w6 (m_nodes m) i) n))). }
   split.
   { intros i a Hi Ha. rewrite Ei in Ha. apply Rn. apply Rn in Hi. eapply reach_succ; [exact Hi|now apply in_succs_ins]. }
   split.
   { intros i v Hi Hv. rewrite Ev in Hv. apply Rv. exists i. split; [now apply Rn|assumption]. }
   split.
-  { intros i j Hi Hlt. subst w'. apply outputs_inverse; [assumption|]. now rewrite <- L. }
+  { intros i j Hi Hlt. apply outputs_inverse; [assumption|]. now rewrite <- L. }
   split.
-  { intros i Hi Hlt. subst w'. apply wire_sets_model; [assumption|]. now rewrite <- L. }
-  exists order. subst w'. unfold is_topo in *.
+  { intros i Hi Hlt. apply wire_sets_model; [assumption|]. now rewrite <- L. }
+  exists order. unfold is_topo in *.
   apply andb_true_iff in Ho as [Ho1 Ho2]. apply andb_true_iff. split; [assumption|].
   clear - Ho2. generalize dependent (@nil nid). induction order as [|n r IH]; intros seen Hs; [reflexivity|].
   cbn in *. apply andb_true_iff in Hs as [Hs1 Hs2]. apply andb_true_iff. split; [|now apply IH].
   now rewrite ins_of_wire.
+Qed.
+
+(* copy=True: Model.__init__ does not touch the originals at all - in particular not the nodes of a
+   live model that were handed to the builder *)
+Theorem model_init_copy_keeps_originals : forall cf topo w ns vs w' r,
+  model_init cf topo true w ns vs = (w', r) -> w' = w.
+Proof.
+  intros cf topo w ns vs w' r H. unfold model_init in H. cbn [negb andb] in H.
+  repeat match type of H with
+         | (if ?c then _ else _) = _ => destruct c
+         | match ?c with _ => _ end = _ => destruct c
+         end; inversion H; reflexivity.
 Qed.
 
 (* satisfiability of the hypotheses on concrete objects *)
@@ -962,7 +986,7 @@ Example closure_example : closure ex_seeded [] [0] = Some ([2; 1; 0], [0]).
 Proof. vm_compute. reflexivity. Qed.
 
 Example build_example :
-  match build true true true naive_topo ex_seeded [] [0] with
+  match build true true true naive_topo false ex_seeded [] [0] with
   | (w', Ok m) => map (name_of w') (m_nodes m) =
                   ["x_var_value"; "s"; "_model_s_seed"; "a"; "_model_log_prob"; "_model_log_prior"; "_model_log_lik"]%string
   | _ => False
@@ -971,7 +995,7 @@ Proof. vm_compute. reflexivity. Qed.
 
 Example cycle_example :
   let w := mkW [mkN "a" [1] [] None None false false false [] []; mkN "b" [0] [] None None false false false [] []] [] [] in
-  path w 0 0 /\ snd (build true true true naive_topo w [0] []) = Err Cycle.
+  path w 0 0 /\ snd (build true true true naive_topo false w [0] []) = Err Cycle.
 Proof.
   split.
   - eapply path_step with (b := 1); [cbn; auto|]. apply path_one. cbn. auto.
@@ -979,7 +1003,7 @@ Proof.
 Qed.
 
 Example frozen_example :
-  match build true true true naive_topo ex_seeded [] [0] with
+  match build true true true naive_topo false ex_seeded [] [0] with
   | (w', Ok m) => mutate true w' (TNode 1) (MSetName "t") = (w', Err Frozen) /\ mutate true w' (TVar 0) (MSetName "t") = (w', Err Frozen)
   | _ => False
   end.
@@ -1043,7 +1067,7 @@ Definition ex_proxies : world :=
       [mkV "" 0 2 None false false []; mkV "" 1 3 None false false []] [].
 
 Example unnamed_vars_named_values_example :
-  match build true true true naive_topo ex_proxies [] [0; 1] with
+  match build true true true naive_topo false ex_proxies [] [0; 1] with
   | (w', Ok m) => map (vname_of w') (m_vars m) = ["v0"; "v1"]%string /\
                   In "v0_var_value"%string (map (name_of w') (m_nodes m)) /\
                   In "v1_var_value"%string (map (name_of w') (m_nodes m))
@@ -1056,9 +1080,24 @@ Proof. vm_compute. split; [reflexivity|]. split; tauto. Qed.
 Theorem unnamed_vars_named_values_refuted :
   exists w rv,
     NoDup (filter (fun s => negb (String.eqb s "_var_value")) (map n_name (w_nodes w))) /\
-    snd (build true true false naive_topo w [] rv) = Err DupNode /\
-    is_ok (snd (build true true true naive_topo w [] rv)) = true.
+    snd (build true true false naive_topo false w [] rv) = Err DupNode /\
+    is_ok (snd (build true true true naive_topo false w [] rv)) = true.
 Proof.
   exists ex_proxies, [0; 1]. split; [|split; vm_compute; reflexivity].
   cbn. repeat constructor; cbn; intuition discriminate.
 Qed.
+
+(* copy=True from the nodes of a LIVE model (a -> b -> c, built): accepted, and the live model keeps its
+   outputs and its nodes *)
+Example copy_build_from_live_model_example :
+  match build true true true naive_topo false ex_chain [2] [] with
+  | (w1, Ok m1) =>
+    match build true true true naive_topo true w1 [2] [] with
+    | (w2, Ok m2) => map (getn w2) (m_nodes m1) = map (getn w1) (m_nodes m1) /\
+                     map (outs_of w2) [0; 1; 2] = [[1]; [2]; []] /\
+                     map (name_of w2) (m_nodes m2) = ["_model_log_prob"; "_model_log_prior"; "_model_log_lik"; "c"; "b"; "a"]%string
+    | _ => False
+    end
+  | _ => False
+  end.
+Proof. vm_compute. repeat split; reflexivity. Qed.
